@@ -6,7 +6,9 @@ import EinoV.Expected.C15
 namespace EinoV.Oracle.C15
 open Lean EinoV EinoV.C15
 
-/-- {"k":"str"|"int"|"any"} | {"k":"ptr"|"map","e":T} | {"k":"struct","name":s,"fields":[{"n":s,"t":T}]} -/
+/-- {"k":"str"|"int"|"any"} | {"k":"ptr"|"map","e":T} | {"k":"struct","name":s,"fields":[{"n":s,"t":T}]}
+    | {"k":"opq","kind":"slice"|"func"|"chan","name":s} (a non-nil value of an opaque type travels
+    as {"k":"str","s":token}) -/
 partial def parseTy (j : Json) : JE FTy := do
   match (← J.str j "k") with
   | "str" => pure .str
@@ -18,6 +20,13 @@ partial def parseTy (j : Json) : JE FTy := do
     let fs ← (J.arrD j "fields").mapM (fun f => do
       pure ((← J.str f "n"), (← parseTy (← J.field f "t"))))
     pure (.struct (← J.str j "name") (fs.foldr (fun (n, t) acc => .cons n t acc) .nil))
+  | "opq" => do
+    let kind ← match (← J.str j "kind") with
+      | "slice" => pure OKind.slice
+      | "func" => pure OKind.func
+      | "chan" => pure OKind.chan
+      | k => throw s!"bad opaque kind {k}"
+    pure (.opq kind (← J.str j "name"))
   | k => throw s!"bad type kind {k}"
 
 partial def parseVal (j : Json) : JE FVal := do
@@ -43,6 +52,8 @@ partial def renderTy : FTy → Json
   | .ptr t => Json.mkObj [("k", "ptr"), ("e", renderTy t)]
   | .map t => Json.mkObj [("k", "map"), ("e", renderTy t)]
   | .struct n fs => Json.mkObj [("k", "struct"), ("name", n), ("fields", J.mkArr (renderFields fs))]
+  | .opq k n => Json.mkObj [("k", "opq"),
+      ("kind", match k with | .slice => "slice" | .func => "func" | .chan => "chan"), ("name", n)]
 partial def renderFields : FFields → List Json
   | .nil => []
   | .cons n t r => Json.mkObj [("n", n), ("t", renderTy t)] :: renderFields r
